@@ -1,14 +1,14 @@
 SPECIFICATION Spec
 CONSTANTS
-  NG = 3
+  NG = 0
   NO = 2
-  ND = 4
+  ND = 2
   NP = 2
-  Names = {"a", "b"}
-  Vals = {1, 2}
-  Acts = {"CreateGroup", "CreateObject", "AddData", "CreateWithUid", "Rename", "SetFlag", "SetVal", "Move", "MoveSame", "AddToGroup", "AddDataFails", "StripOpt", "SaveAs", "Helper", "Copy2", "Remove2", "ScrubData", "CreateDeferred", "PGWithUid", "RemoveFromGroup", "RemovePG", "RemoveViaWorkspace", "RemoveViaParent", "DropRef", "Collect", "Purge", "LookupDead", "Copy", "Close", "Open"}
+  Names = {"a"}
+  Vals = {1}
+  Acts = {"CreateObject", "AddData", "AddToGroup", "Move", "MoveSame", "Copy", "RemoveViaParent", "Close", "Open"}
   Deviations = {"CloseKeepsOrphans"}
-  MaxDepth = 60
+  MaxDepth = 6
 CONSTRAINT DepthBound
 VIEW vw
 INVARIANT TypeOK
